@@ -100,4 +100,16 @@ PROPS = {
                 "PS3.8, Unknown PDU / sub-item types that the library does not decode itself",
                 "a PDU longer than 2^32-1 bytes is not constructible in memory and is not tried",
             ]},
+    "C27": {"run": simple, "level": "fault_enumeration",
+            "assumptions": [
+                "the transport only segments/coalesces and may answer Pending; it never fails, reorders or "
+                "drops bytes (I/O failures are C34's subject)",
+                "every PDU of a sequence individually survives write_pdu→read_pdu (else the sequence is "
+                "skipped and counted: that is C25's subject)",
+            ]},
+    "C36": {"run": simple, "level": "exploration",
+            "assumptions": [
+                "titles are non-empty; socket addresses are those whose std text form is itself lossless "
+                "(IPv6 flow labels have no text form and are skipped, counted)",
+            ]},
 }
